@@ -40,8 +40,6 @@ from file_processing.input_processing.input_manager import InputManager  # noqa:
 from virtual_world.infrastructure import Infrastructure  # noqa: E402
 from constants.infrastructure_const import Infrastructure_Constants as _IC  # noqa: E402
 
-_EQ_CLEAN_LIST = _IC.Equipment_Group_File_Constants.PROPAGATING_PARAMETER_COLUMNS
-_EQ_CLEAN_ORIG = list(_EQ_CLEAN_LIST)
 
 EMIS_COLUMNS = ["E%d" % i for i in range(1, 9)]
 
@@ -99,6 +97,8 @@ def build_params(case, extra):
     vw["infrastructure"]["sources_file"] = "sources.csv" if case.get("sources") else None
     vw["emissions"]["emissions_file"] = "emissions.csv"
     vw["site_samples"] = case.get("n_sites")
+    if case.get("start_date"):
+        vw["start_date"] = list(case["start_date"])
     methods = {}
     for me in case["methods"]:
         md = copy.deepcopy(m0)
@@ -279,7 +279,10 @@ class Rejected(Exception):
     pass
 
 
-def run_impl(case, extra):
+LAST_PROBE = {}
+
+
+def run_impl(case, extra, probes=False):
     """returns (status, world | what, sample) with status ok | reject | crash | infra; world = list of site
     dicts read from the real objects; sample = the rows `sites_in.sample(n)` drew (index labels of the
     sites file, in the drawn order; None if the call was not reached) — recorded by a harness-side
@@ -291,7 +294,7 @@ def run_impl(case, extra):
         if bad:
             return ("infra", bad, None)
         vw, methods = build_params(case, extra)
-        _EQ_CLEAN_LIST[:] = _EQ_CLEAN_ORIG   # the cleaning appends to this class-level list on every call
+        snapshot = copy.deepcopy((vw, methods)) if probes else None
         np.random.seed(case.get("np_seed", 0))
         out = io.StringIO()
         import contextlib
@@ -318,7 +321,38 @@ def run_impl(case, extra):
         finally:
             pd.DataFrame.sample = orig_sample
             logging.disable(logging.NOTSET)
-        return ("ok", read_world(infra, case["methods"]), rec["sample"])
+        try:
+            world = read_world(infra, case["methods"])
+        except Exception as e:   # the constructed objects lack what the case's methods / files call for
+            return ("crash", "%s: %s (while reading the constructed world)" % (type(e).__name__, e), rec["sample"])
+        if probes:
+            # same-process / execution-mode probes on the real objects (results in world[...]["_probe"] is
+            # avoided: they are returned through the module-level LAST_PROBE)
+            import pickle
+            probe = {}
+            probe["input-unchanged"] = canon(snapshot) == canon((vw, methods))
+            try:
+                probe["pickle"] = canon(read_world(pickle.loads(pickle.dumps(infra)), case["methods"])) == canon(world)
+            except Exception as e:
+                probe["pickle"] = "%s: %s" % (type(e).__name__, e)
+            try:
+                probe["deepcopy"] = canon(read_world(copy.deepcopy(infra), case["methods"])) == canon(world)
+            except Exception as e:
+                probe["deepcopy"] = "%s: %s" % (type(e).__name__, e)
+            try:
+                np.random.seed(case.get("np_seed", 0))
+                logging.disable(logging.CRITICAL)
+                with contextlib.redirect_stdout(out), warnings.catch_warnings():
+                    warnings.simplefilter("ignore")
+                    again = Infrastructure(vw, methods, Path(d))     # the SAME dict objects a second time
+                probe["rebuild-from-same-dicts"] = canon(read_world(again, case["methods"])) == canon(world)
+            except BaseException as e:
+                probe["rebuild-from-same-dicts"] = "%s: %s" % (type(e).__name__, e)
+            finally:
+                logging.disable(logging.NOTSET)
+            LAST_PROBE.clear()
+            LAST_PROBE.update(probe)
+        return ("ok", world, rec["sample"])
     finally:
         shutil.rmtree(d, ignore_errors=True)
 
@@ -335,6 +369,7 @@ def read_world(infra, methods):
     for s in infra._sites:
         site = {
             "sid": str(s.get_id()), "stype": str(s.get_type()),
+            "tag_date": s.get_latest_tagging_survey_date(),
             "freq": [s._survey_frequencies[m] for m in methods],
             "months": [s._deployment_months[m] for m in methods],
             "years": [s._deployment_years[m] for m in methods],
